@@ -525,6 +525,22 @@ let rec handle (line : string) : string =
        let right = if N.ltb (N.add x (n_of_int 1)) w then "0" else "-" in
        let above = if N.ltb N0 y then "0" else "-" in
        Printf.sprintf "len=%s set=[%s:%d] get=1 nbr=%s/%s" (pn (total_bytes w h)) (pn i) (1 lsl (int_of_n b)) right above)
+  | ["PXZ"; w; h; x; y; probes] ->
+    (* one pixel switched on in a page over several GiB of zero bytes: single bytes through the byte view of set_pixel
+       (C06_byte_view, C06_zero_page_view); the pixel reads 1 (C06_set_ok), its in-bounds neighbours 0 (C06_get_set_other) *)
+    let w = num w and h = num h and x = num x and y = num y in
+    (match index { p_w = w; p_h = h; p_bytes = [] } x y with
+     | None -> "PANIC"
+     | Some _ ->
+       let right = if N.ltb (N.add x (n_of_int 1)) w then "0" else "-" in
+       let above = if N.ltb N0 y then "0" else "-" in
+       let one i =
+         match set_pixel_byte_view w h x y true (num i) (zero_bytes_view w h (num i)) with
+         | None -> i ^ ":P"
+         | Some None -> i ^ ":-"
+         | Some (Some b) -> i ^ ":" ^ pn b in
+       Printf.sprintf "len=%s view=0 get=1 nbr=%s/%s bytes=%s" (pn (total_bytes w h)) right above
+         (String.concat "," (List.map one (String.split_on_char ',' probes))))
   | ["PBX"; w; h; len; fill] ->
     let len = int_of_string len and fill = num fill in
     let bs = List.init len (fun i -> if i < 4 then List.nth [n_of_int 7; n_of_int 16; N0; N0] i else fill) in
